@@ -374,13 +374,16 @@ impl StrExt for str {
             let mut chunk_start = 0;
 
             for (i, c) in pattern.char_indices() {
-                if matches!(c, '?' | '*') && !prev_wildcard {
-                    if i != 0 {
-                        chunks.push(regex::escape(&pattern[chunk_start..i]));
-                        chunk_start = i;
-                    }
+                if matches!(c, '?' | '*') {
+                    // A run of wildcards is translated as a whole.
+                    if !prev_wildcard {
+                        if i != 0 {
+                            chunks.push(regex::escape(&pattern[chunk_start..i]));
+                            chunk_start = i;
+                        }
 
-                    prev_wildcard = true;
+                        prev_wildcard = true;
+                    }
                 } else if prev_wildcard {
                     let chunk = &pattern[chunk_start..i];
                     chunks.push(chunk.wildcards_to_regex());
